@@ -72,38 +72,43 @@ def popLoop (last : Nat) : Nat → Run → Option Run
                           asg := st r.asg top r.numScc }
         if top = last then some r else popLoop last f r
 
+/-- `dfs_state[last].neighbor += 1` -/
+def incNeighbor (r : Run) (last : Nat) : Run :=
+  { r with dfs := upd r.dfs last (fun d => { d with neighbor := d.neighbor + 1 }) }
+
+/-- `dfs_state[v].lowlink = min(dfs_state[v].lowlink, x)` -/
+def minLow (r : Run) (v x : Nat) : Run :=
+  { r with dfs := upd r.dfs v (fun d => { d with lowlink := min d.lowlink x }) }
+
+/-- `num_scc += 1` -/
+def bumpScc (r : Run) : Run := { r with numScc := r.numScc + 1 }
+
 /-- the `loop { … }` of one root; returns the state at `break` -/
 def dfsLoop (g : Graph) : Nat → Run → Nat → Option Run
   | 0, _, _ => none
   | f + 1, r, last =>
     if last ≥ r.dfs.size then none else
     if (gt r.dfs last).neighbor < outDegree g last then
-      -- edge_range(last).nth(neighbor)
-      let e := beginEdges g last + (gt r.dfs last).neighbor
-      let w := target g e
-      let r := { r with dfs := upd r.dfs last (fun d => { d with neighbor := d.neighbor + 1 }) }
-      if w ≥ r.dfs.size then none else
-      if (gt r.dfs w).index = maxU then
-        dfsLoop g f (stackPush r w last) w
-      else if (gt r.dfs w).onStack then
-        let wi := (gt r.dfs w).index
-        let r := { r with dfs := upd r.dfs last (fun d => { d with lowlink := min d.lowlink wi }) }
-        dfsLoop g f r last
-      else dfsLoop g f r last
+      -- e = edge_range(last).nth(neighbor); w = target(e); neighbor += 1
+      let w := target g (beginEdges g last + (gt r.dfs last).neighbor)
+      let r1 := incNeighbor r last
+      if w ≥ r1.dfs.size then none else
+      if (gt r1.dfs w).index = maxU then
+        dfsLoop g f (stackPush r1 w last) w
+      else if (gt r1.dfs w).onStack then
+        dfsLoop g f (minLow r1 last (gt r1.dfs w).index) last
+      else dfsLoop g f r1 last
     else
-      let r? := if (gt r.dfs last).lowlink = (gt r.dfs last).index then
-                  popLoop last (r.stack.size + 1) { r with numScc := r.numScc + 1 }
-                else some r
-      match r? with
+      match (if (gt r.dfs last).lowlink = (gt r.dfs last).index then
+               popLoop last (r.stack.size + 1) (bumpScc r)
+             else some r) with
       | none => none
-      | some r =>
-        let newLast := (gt r.dfs last).caller
+      | some r2 =>
+        let newLast := (gt r2.dfs last).caller
         if newLast ≠ maxU then
-          if newLast ≥ r.dfs.size then none else
-          let low := (gt r.dfs last).lowlink
-          let r := { r with dfs := upd r.dfs newLast (fun d => { d with lowlink := min d.lowlink low }) }
-          dfsLoop g f r newLast
-        else some r
+          if newLast ≥ r2.dfs.size then none else
+          dfsLoop g f (minLow r2 newLast (gt r2.dfs last).lowlink) newLast
+        else some r2
 
 /-- steps one root's `loop` can take at most: every edge once, every node finished once -/
 def dfsFuel (g : Graph) : Nat := numEdges g + numNodes g + 1
